@@ -322,6 +322,20 @@ pub struct C16Pin {
     pub argv_extra: &'static [&'static str],
 }
 
+/// the token-mutated program of case `idx` of the mutation pool (also used by C13: what is
+/// accepted must assemble)
+pub fn mutant_source(idx: u64, ops: &mut Vec<String>) -> String {
+    let mut rng = Rng::for_case("C16mut", idx);
+    let base = if idx % 5 == 0 {
+        SEEDS[(idx / 5) as usize % SEEDS.len()].to_string()
+    } else {
+        let k = ["rand", "stress", "hw", "bait", "superchip", "matrix"][(idx % 6) as usize];
+        let (p, _) = corpus_program(k, idx / 6 % pool_len(k));
+        print_program(&p)
+    };
+    mutate(&base, &mut rng, ops)
+}
+
 pub fn c16_pins() -> Vec<C16Pin> {
     vec![
         // fixed on this tree: must stay silent
@@ -352,6 +366,8 @@ pub fn c16_pins() -> Vec<C16Pin> {
         C16Pin { name: "bank_number_overflow", src: || "bank4294967296 void f() {}\nvoid main() { f(); }\n".into(), argv_extra: &[] },
         C16Pin { name: "negative_asm_size", src: || "void main() { asm(\"NOP\", 1 -128); }\n".into(), argv_extra: &[] },
         C16Pin { name: "absurd_subscript", src: || "superchip unsigned char sc[16];\nunsigned char b;\nvoid main() { b = sc[2147483647]; }\n".into(), argv_extra: &[] },
+        C16Pin { name: "if_continue_in_switch", src: || "unsigned char a;\nvoid main() { switch (a) { case 1: if (a) continue; } }\n".into(), argv_extra: &[] },
+        C16Pin { name: "banked_call_without_rom_select", src: || "unsigned char a;\nbank1 void f() { a = 1; }\nvoid main() { f(); }\n".into(), argv_extra: &["-D__3E__"] },
         // recorded finding
         C16Pin { name: "deep_blocks_5000", src: || nesting(1, 5000), argv_extra: &[] },
     ]
@@ -405,6 +421,11 @@ impl Monitor for C16 {
                 if pin.argv_extra.contains(&"--insert-code") {
                     o.insert_code = true;
                 }
+                for a in pin.argv_extra {
+                    if let Some(d) = a.strip_prefix("-D") {
+                        o.defines.push(d.to_string());
+                    }
+                }
                 let src = (pin.src)();
                 judge_total(kind, idx, &format!("pin:{}", pin.name), src.as_bytes(), &o, Some(format!("pin:{}", pin.name)))
             }
@@ -443,16 +464,8 @@ impl Monitor for C16 {
                 judge_total(kind, idx, if printable { "printable garbage" } else { "byte garbage" }, &b, &opts_for(idx), None)
             }
             _ => {
-                let mut rng = Rng::for_case("C16mut", idx);
-                let base = if idx % 5 == 0 {
-                    SEEDS[(idx / 5) as usize % SEEDS.len()].to_string()
-                } else {
-                    let k = ["rand", "stress", "hw", "bait", "superchip", "matrix"][(idx % 6) as usize];
-                    let (p, _) = corpus_program(k, idx / 6 % pool_len(k));
-                    print_program(&p)
-                };
                 let mut ops = Vec::new();
-                let src = mutate(&base, &mut rng, &mut ops);
+                let src = mutant_source(idx, &mut ops);
                 let mut r = judge_total(kind, idx, "token mutation of a valid program", src.as_bytes(), &opts_for(idx), None);
                 for o in ops {
                     r.set("mutation operators applied", &o);
@@ -464,7 +477,7 @@ impl Monitor for C16 {
     fn on_crash(&self, kind: &str, idx: u64, how: &str) -> CaseResult {
         let mut r = CaseResult::new(&format!("worker {} during compile()", how), idx);
         r.nontrivial = true;
-        let sig = if kind == "pin" { format!("pin:{}", c16_pins()[idx as usize].name) } else { format!("abort:{}:{}", kind, idx) };
+        let sig = if kind == "pin" { format!("pin:{}", c16_pins().get(idx as usize).map(|p| p.name).unwrap_or("?")) } else { format!("abort:{}:{}", kind, idx) };
         r.violate(
             &sig,
             &format!("C16: the process running compile() on case {}:{} {} (abort / stack overflow / hang)", kind, idx, how),
